@@ -58,4 +58,55 @@ def ConformsHere (c : Ctx) : IV → Prop
       ∀ n t, (n, t) ∈ d.fields → ∃ v, fs.find n = some v ∧ c.subSema (dynType c v) t = true
   | _ => True
 
+/-! ### A condition on the *encoded* argument (the decoder's `cadence.Value`), independent of the import:
+    a composite whose kind tag is not the kind of the declaration its type ID names, at a position
+    that no later entry can overwrite (dictionary keys / field names recognisably distinct).
+    Such an argument has no well-formed reading (`ConformsHere` fails for that composite whatever
+    the importer does with the rest), so it must be rejected. -/
+
+def leafKey : XV → Option String
+  | .bool b => some ("b" ++ toString b)
+  | .str h => some ("s" ++ h)
+  | .char h => some ("c" ++ h)
+  | .addr h => some ("a" ++ h)
+  | .num k n => some ("n" ++ k ++ ":" ++ toString n)
+  | .path d i => some ("p" ++ d ++ "/" ++ i)
+  | _ => none
+
+def xKeys : XPairs → List (Option String)
+  | .nil => []
+  | .cons k _ r => leafKey k :: xKeys r
+
+def xNames : XFields → List String
+  | .nil => []
+  | .cons n _ r => n :: xNames r
+
+def distinctStrings : List String → Bool
+  | [] => true
+  | a :: r => !r.contains a && distinctStrings r
+
+def distinctKeys (ks : List (Option String)) : Bool :=
+  ks.all (·.isSome) && distinctStrings (ks.filterMap id)
+
+mutual
+/-- some composite that survives the import carries a kind tag other than its declaration's kind -/
+def kindClash (c : Ctx) : XV → Bool
+  | .some v => kindClash c v
+  | .arr vs => kindClashList c vs
+  | .dict kvs => distinctKeys (xKeys kvs) && kindClashPairs c kvs
+  | .comp k id fs =>
+    (match c.decls id with | some d => k != d.kind | none => false)
+      || (distinctStrings (xNames fs) && kindClashFields c fs)
+  | _ => false
+def kindClashList (c : Ctx) : XVs → Bool
+  | .nil => false
+  | .cons v r => kindClash c v || kindClashList c r
+def kindClashPairs (c : Ctx) : XPairs → Bool
+  | .nil => false
+  | .cons k v r => kindClash c k || kindClash c v || kindClashPairs c r
+def kindClashFields (c : Ctx) : XFields → Bool
+  | .nil => false
+  | .cons _ v r => kindClash c v || kindClashFields c r
+end
+
 end Verif.Spec.Import
